@@ -563,6 +563,12 @@ impl Property for C09 {
     fn fault_names(&self) -> &'static [&'static str] {
         FAULTS
     }
+    fn probes_zero_by_construction(&self) -> &'static [(&'static str, &'static str)] {
+        &[(
+            "size_hint_compared_with_observed_end",
+            "the image colour streams of the unchanged tree keep the default size_hint() (0, None), which announces nothing that could be compared; the probe fires as soon as a change gives them a hint (seeded changes c01-agent5-1, c09-agent7-2)",
+        )]
+    }
     fn lattice_size(&self) -> u32 {
         14 * 8 * crate::dev::N_DISC
     }
@@ -573,7 +579,7 @@ impl Property for C09 {
         "operations_checked"
     }
     fn rule(&self) -> &'static str {
-        "one seeded scenario = ImageRaw of one of 7 raw widths x 2 data orders, size 0..=20 x 0..=12 biased to widths that are not a multiple of the pixels per byte (1 run in 64: a big image with rows longer than 255 pixels/bytes or more than 65535 pixels), seeded bytes (random / all ones / row-tagged); operations: ImageRaw::new with exact and wrong lengths, pixel(p) on the box plus margin plus extreme points, Image::new / with_center draw of the image or of a sub-image chain (inside / overlapping / outside / zero-sized, nested twice) onto a device with seeded box, capability set and discipline; oracle: independent decoder, exact pixel map, stream length == area for every fill_contiguous (consumers: zip either way, take, drain, skip hidden colours with nth, k x next then unbounded for_each), size_hint() agrees with the stream. distinct = 64-bit hash of the decoded scenario; non-trivial = at least one device pixel expected to be set"
+        "one seeded scenario = ImageRaw of one of 7 raw widths x 2 data orders, size 0..=20 x 0..=12 biased to widths that are not a multiple of the pixels per byte (1 run in 64: a big image with rows longer than 255 pixels/bytes or more than 65535 pixels), seeded bytes (random / all ones / row-tagged); operations: ImageRaw::new (and new_const) with exact and wrong lengths, pixel(p) on the box plus margin plus extreme points, Image::new / with_center draw of the image or of a sub-image chain (inside / overlapping / outside / zero-sized, nested twice) onto a device with seeded box, capability set and discipline; oracle: independent decoder, exact pixel map, stream length == area for every fill_contiguous (consumers: zip either way, take, drain, skip hidden colours with nth, k x next then unbounded for_each, polling again after the end), size_hint() read at the start and again mid-stream agrees with the stream. distinct = 64-bit hash of the decoded scenario; non-trivial = at least one device pixel expected to be set"
     }
     fn assumptions(&self) -> Vec<&'static str> {
         vec![
